@@ -168,7 +168,7 @@ fn dispatch_replay(ctx: &Ctx, sub: &str, case: &serde_json::Value) -> SubResult 
 
 fn regression_replays(ctx: &Ctx) -> SubResult {
     let mut out = SubResult { sub: "regression-replays".into(), ..Default::default() };
-    let dir = format!("{VERIF_DIR}/regressions");
+    let dir = format!("{}/regressions", verif_dir());
     let Ok(rd) = std::fs::read_dir(&dir) else { return out };
     let mut files: Vec<_> = rd.filter_map(|e| e.ok()).map(|e| e.path()).filter(|p| p.extension().map(|x| x == "json").unwrap_or(false)).collect();
     files.sort();
